@@ -1,0 +1,39 @@
+//go:build verif
+
+package header
+
+// Contracts for govc (contract-based deductive verification, see /verif/DESIGN.md).
+// This file contains comments only and is compiled only with the build tag `verif`.
+
+// C13: the header verifier never counts requests to the proxy's own API, records at most one error per message and
+// reports nil iff nothing is recorded.
+//@ pred headerVerifierOK(v *verifier) = v != nil && v.reqerr != nil && merrIdle(v.reqerr) && v.reserr != nil && merrIdle(v.reserr) && v.reqerr != v.reserr && tableIdle()
+
+//@ func (*verifier).ModifyRequest
+//@   serves C13
+//@   requires headerVerifierOK(v) && req != nil
+//@   modifies v.reqerr.errs, v.reqerr.errs[*], v.reqerr.mu.wheld, martian.ctxmu.rheld, sync.RWMutex.rheld
+//@   noframe
+//@   ensures[api-requests-never-counted] apiMarked(req) ==> len(v.reqerr.errs) == old(len(v.reqerr.errs))
+//@   ensures[at-most-one-error-per-request] len(v.reqerr.errs) == old(len(v.reqerr.errs)) || len(v.reqerr.errs) == old(len(v.reqerr.errs)) + 1
+//@   ensures result == nil
+//@ func (*verifier).ModifyResponse
+//@   serves C13
+//@   requires headerVerifierOK(v) && res != nil && res.Request != nil
+//@   modifies v.reserr.errs, v.reserr.errs[*], v.reserr.mu.wheld, martian.ctxmu.rheld, sync.RWMutex.rheld
+//@   noframe
+//@   ensures[api-requests-never-counted] apiMarked(res.Request) ==> len(v.reserr.errs) == old(len(v.reserr.errs))
+//@   ensures[at-most-one-error-per-response] len(v.reserr.errs) == old(len(v.reserr.errs)) || len(v.reserr.errs) == old(len(v.reserr.errs)) + 1
+//@   ensures result == nil
+//@ func (*verifier).VerifyRequests
+//@   serves C13
+//@   requires headerVerifierOK(v)
+//@   modifies v.reqerr.mu.rheld
+//@   ensures[nil-iff-nothing-recorded] (result == nil) == (len(v.reqerr.errs) == 0)
+//@   ensures[reports-the-recorded-list] result != nil ==> result == v.reqerr
+//@ func (*verifier).VerifyResponses
+//@   serves C13
+//@   requires headerVerifierOK(v)
+//@   modifies v.reserr.mu.rheld
+//@   ensures[nil-iff-nothing-recorded] (result == nil) == (len(v.reserr.errs) == 0)
+//@   ensures[reports-the-recorded-list] result != nil ==> result == v.reserr
